@@ -26,11 +26,12 @@ let () = register "bulk" (function
         | _ -> failwith "bad prep") M.init_state prep in
     let es = List.map (function L [_; op] -> op_of op | _ -> failwith "bad element") els in
     let actions = List.map action_of es in
-    let (s', rs) =
+    (* results tagged with ElementID, in completion order *)
+    let (s', tagged) =
       if bool_of parallel then
         let sched = List.map (fun i -> (nat_of_int (int_of_string (atom i)), false)) perm in
         let ((s', tagged), _) = M.core_sched f (zarg now) (bool_of cont) s0 es sched in
-        (s', List.map snd tagged)
-      else M.core_bulk f (zarg now) (bool_of atomic) (bool_of cont) s0 es in
-    L [A "bulk"; L [A "results"; L (List.map entry_sx (M.respond M.bres_ok actions rs))]; state_sx s']
+        (s', tagged)
+      else let (s', rs) = M.core_bulk f (zarg now) (bool_of atomic) (bool_of cont) s0 es in (s', M.tag_seq rs) in
+    L [A "bulk"; L [A "results"; L (List.map entry_sx (M.respond M.bres_ok actions tagged))]; state_sx s']
   | _ -> failwith "bad bulk case")
